@@ -4,6 +4,7 @@ package main
 
 import (
 	"encoding/json"
+	"errors"
 	"fmt"
 	"testing"
 	"time"
@@ -191,6 +192,21 @@ func c15Scenario(w *vfWorld, r *vfkit.R, idx int, callsOn bool) {
 		}
 		cnt := sc.counts()
 		k := rng.Intn(20)
+		// hostile invitations: the store fails to save the invitation, or the caller has lost W. Directed at the start
+		// of two thirds of the scenarios (followed by an ordinary invitation), drawn at random later on.
+		hostile := ""
+		if callsOn && i < 2 && idx%3 != 2 {
+			k = 0
+			s = sc.ss[(idx/3)%len(sc.ss)]
+			if i == 0 {
+				hostile = []string{"store-failure", "caller-lost-W"}[idx%3]
+			}
+		} else if callsOn && k < 5 && rng.Intn(6) == 0 {
+			hostile = []string{"store-failure", "caller-lost-W"}[rng.Intn(2)]
+		}
+		if hostile != "" && !(sc.attached(s) && s != sc.third && sc.cur == nil) {
+			hostile = ""
+		}
 		switch {
 		case k < 5: // invitation
 			content := fmt.Sprintf("call-%d-%d", idx, i)
@@ -206,9 +222,38 @@ func c15Scenario(w *vfWorld, r *vfkit.R, idx int, callsOn bool) {
 					globals.callEstablishmentTimeout = 25
 				}
 			}
+			var peer *c15Sess
+			for _, x := range sc.ss {
+				if x.u != s.u && sc.attached(x) {
+					peer = x
+				}
+			}
+			if hostile == "caller-lost-W" && peer == nil {
+				hostile = ""
+			}
+			switch hostile {
+			case "store-failure":
+				fired := false
+				vfRec.setFault(func(c *vfmem.Call) error {
+					if c.Op == "MessageSave" && c.Topic == sc.canon && !fired {
+						fired = true
+						return errors.New("vf injected failure at MessageSave")
+					}
+					return nil
+				})
+			case "caller-lost-W":
+				peer.c.set(peer.name, map[string]any{"sub": map[string]any{"user": s.u.uid.UserId(), "mode": "JRPA"}})
+				e.vfQuiesce()
+				cnt = sc.counts()
+			}
 			f := s.c.pub(s.name, content, false, map[string]any{"webrtc": "started", "mime": "application/x-tinode-webrtc"})
+			vfRec.setFault(nil)
 			e.vfQuiesce()
-			sc.logf("%s invites -> %s", s.lbl, codeStr(f))
+			sc.logf("%s invites (%s) -> %s", s.lbl, hostile, codeStr(f))
+			if hostile == "caller-lost-W" {
+				peer.c.set(peer.name, map[string]any{"sub": map[string]any{"user": s.u.uid.UserId(), "mode": "JRWPA"}})
+				e.vfQuiesce()
+			}
 			att := sc.attached(s) && s != sc.third
 			wantCode := 202
 			switch {
@@ -218,6 +263,12 @@ func c15Scenario(w *vfWorld, r *vfkit.R, idx int, callsOn bool) {
 				wantCode = 501
 			case sc.cur != nil:
 				wantCode = 486
+			case hostile == "store-failure":
+				wantCode = 500
+				r.Hit("refused_invitation_starts_no_call")
+			case hostile == "caller-lost-W":
+				wantCode = 403
+				r.Hit("refused_invitation_starts_no_call")
 			}
 			r.Hit("invitation_gate")
 			code := 0
